@@ -153,10 +153,11 @@ Theorem C19_encode_ignores_bytes_outside_bounds : forall (Cfg Out : Type) (rest 
 Proof. exact encode_ignores_bytes_outside_bounds. Qed.
 Print Assumptions C19_encode_ignores_bytes_outside_bounds.
 
-(** The list of pixel-reading sites (type assertions = fast paths, At() loops) per function is
-    the one the models and the harness' placement x type x configuration product were written
-    against; a new import loop or reader breaks this obligation. *)
-Theorem C19_import_sites_match_model : WebpGen.ImgUse.img_uses = doc_img_uses.
+(** The set of pixel-reading signatures (sorted kinds of pixel uses per reading function: Pix fast
+    paths = type assertions, generic At() loops) is the one the models and the harness' placement x
+    type x configuration product were written against, whichever function holds the loops; a new
+    kind of reader breaks this obligation. *)
+Theorem C19_import_sites_match_model : WebpGen.ImgUse.img_pixel_signatures = doc_pixel_signatures.
 Proof. exact import_sites_match_model. Qed.
 Print Assumptions C19_import_sites_match_model.
 
